@@ -63,6 +63,10 @@ func (vs *ValidatorStore) CheckMaliciousValidators(es *evidence.EvidenceStore, g
 			continue
 		}
 		if votes < evidenceOptions.MinVotesRequired {
+			// already frozen and not released: its record (status, freeze time) must stay
+			if es.IsFrozenValidator(baddr) {
+				continue
+			}
 			key := append(vs.prefix, baddr...)
 			data := vs.store.GetVersioned(vs.lastHeight-1, key)
 			if len(data) == 0 {
